@@ -7,6 +7,7 @@ package manifam
 
 import (
 	"fmt"
+	"os"
 	"runtime"
 	"strings"
 	"testing"
@@ -52,9 +53,15 @@ func propC13(c c13Case) (o ev.Outcome, err error) {
 	return ev.Outcome{}, fmt.Errorf("bad case: neither a package.json nor a pom.xml case")
 }
 
+func TestMain(m *testing.M) {
+	code := m.Run()
+	c13WS.cleanup()
+	os.Exit(code)
+}
+
 func TestC13_npm(t *testing.T) {
 	col := ev.Get("C13")
-	ev.Check(t, col, ev.Scale(3000, 12000), func(rt *rapid.T) c13Case {
+	ev.Check(t, col, ev.Scale(6000, 12000), func(rt *rapid.T) c13Case {
 		return c13Case{Npm: genNpmCase(rt, col)}
 	}, propC13)
 }
